@@ -219,6 +219,28 @@ fn peephole2_helper(lines: &[Line], index: usize, ret: &mut Vec<Line>) -> bool {
     }
 }
 
+// Replace a float operation on two constants by its result `c`, unless `c` is NaN: a constant is
+// stored as its decimal representation, which does not preserve the sign of NaN, so the folded
+// constant would not be the value the VM computes (e.g. `inf - inf`). Returns whether it folded.
+fn push_folded_float(
+    c: f64,
+    ret: &mut Vec<Line>,
+    lineno: usize,
+    file_id: u32,
+    func_id: u32,
+) -> bool {
+    if c.is_nan() {
+        return false;
+    }
+    ret.push(Line::Instr {
+        instr: Instr::PushFloat(c.to_string()),
+        lineno,
+        file_id,
+        func_id,
+    });
+    true
+}
+
 fn peephole3_helper(lines: &[Line], index: usize, ret: &mut Vec<Line>) -> bool {
     match lines[index].clone() {
         Line::Label(_) => false,
@@ -322,13 +344,7 @@ fn peephole3_helper(lines: &[Line], index: usize, ret: &mut Vec<Line>) -> bool {
                         let a = a.parse::<f64>().unwrap();
                         let b = b.parse::<f64>().unwrap();
                         let c = a + b;
-                        ret.push(Line::Instr {
-                            instr: Instr::PushFloat(c.to_string()),
-                            lineno,
-                            file_id,
-                            func_id,
-                        });
-                        true
+                        push_folded_float(c, ret, lineno, file_id, func_id)
                     }
                     // FOLD FLOAT SUBTRACTION
                     (
@@ -339,13 +355,7 @@ fn peephole3_helper(lines: &[Line], index: usize, ret: &mut Vec<Line>) -> bool {
                         let a = a.parse::<f64>().unwrap();
                         let b = b.parse::<f64>().unwrap();
                         let c = a - b;
-                        ret.push(Line::Instr {
-                            instr: Instr::PushFloat(c.to_string()),
-                            lineno,
-                            file_id,
-                            func_id,
-                        });
-                        true
+                        push_folded_float(c, ret, lineno, file_id, func_id)
                     }
                     // FOLD FLOAT MULTIPLICATION
                     (
@@ -356,13 +366,7 @@ fn peephole3_helper(lines: &[Line], index: usize, ret: &mut Vec<Line>) -> bool {
                         let a = a.parse::<f64>().unwrap();
                         let b = b.parse::<f64>().unwrap();
                         let c = a * b;
-                        ret.push(Line::Instr {
-                            instr: Instr::PushFloat(c.to_string()),
-                            lineno,
-                            file_id,
-                            func_id,
-                        });
-                        true
+                        push_folded_float(c, ret, lineno, file_id, func_id)
                     }
                     // FOLD FLOAT DIVISION
                     // (not when dividing by +0.0 or -0.0: that is a runtime error)
@@ -374,13 +378,7 @@ fn peephole3_helper(lines: &[Line], index: usize, ret: &mut Vec<Line>) -> bool {
                         let a = a.parse::<f64>().unwrap();
                         let b = b.parse::<f64>().unwrap();
                         let c = a / b;
-                        ret.push(Line::Instr {
-                            instr: Instr::PushFloat(c.to_string()),
-                            lineno,
-                            file_id,
-                            func_id,
-                        });
-                        true
+                        push_folded_float(c, ret, lineno, file_id, func_id)
                     }
                     // FOLD FLOAT EXPONENTIATION
                     (
@@ -391,13 +389,7 @@ fn peephole3_helper(lines: &[Line], index: usize, ret: &mut Vec<Line>) -> bool {
                         let a = a.parse::<f64>().unwrap();
                         let b = b.parse::<f64>().unwrap();
                         let c = a.powf(b);
-                        ret.push(Line::Instr {
-                            instr: Instr::PushFloat(c.to_string()),
-                            lineno,
-                            file_id,
-                            func_id,
-                        });
-                        true
+                        push_folded_float(c, ret, lineno, file_id, func_id)
                     }
                     _ => false,
                 }
